@@ -160,8 +160,23 @@ def _recase(rng, w):
 
 def _gen_term(rng: random.Random, files: list[str], words: list[str]) -> str:
     kind = rng.choice(['word', 'word', 'sub', 'suffix', 'wild-suffix', 'wild-suffix', 'wild-word', 'punct',
-                       'punct', 'excl', 'excl-sub', 'absent', 'junk', 'wild-punct', 'wild-absent'])
+                       'punct', 'excl', 'excl-sub', 'absent', 'junk', 'wild-punct', 'wild-absent', 'excl-punct',
+                       'excl-wrapped', 'incl-wrapped'])
     w = rng.choice(words) if words else 'zz'
+    if kind == 'excl-punct':
+        # an exclude term spanning separators: the literal punctuated text is what is excluded, not its words
+        kind = 'punct'
+        return '-' + _gen_term_kind(rng, files, words, w, kind)
+    if kind in ('excl-wrapped', 'incl-wrapped'):
+        # ONE word with leading / trailing punctuation ("-(live)", "-live.", "[2001]"): cleans to a single word, but the
+        # term only matches where that punctuation really surrounds the word
+        a, b = rng.choice([('(', ')'), ('[', ']'), ('', '.'), ('.', ''), ("'", "'"), ('_', ''), ('', '_'), ('&', ''),
+                           ('', '-'), ('(', ''), ('', ')'), ('-', ''), ('..', ''), ('', '!')])
+        return ('-' if kind == 'excl-wrapped' else '') + a + _recase(rng, w) + b
+    return _gen_term_kind(rng, files, words, w, kind)
+
+
+def _gen_term_kind(rng: random.Random, files: list[str], words: list[str], w: str, kind: str) -> str:
     if kind == 'word':
         return _recase(rng, w)
     if kind == 'sub':
